@@ -7,6 +7,7 @@ import (
 	"strconv"
 	"strings"
 	"sync"
+	"sync/atomic"
 
 	"github.com/jimsnab/go-lane"
 )
@@ -17,13 +18,13 @@ type (
 		basePath string
 		dbs      map[int]*dataStore
 		users    map[string]*dataStoreUser
-		phook    *DispatchHook
+		phook    *atomic.Pointer[DispatchHook]
 	}
 
 	DispatchHook func(cmd string, args map[string]any) (hooked bool, result any, err error)
 )
 
-func newDataStoreSet(l lane.Lane, basePath string, phook *DispatchHook) *dataStoreSet {
+func newDataStoreSet(l lane.Lane, basePath string, phook *atomic.Pointer[DispatchHook]) *dataStoreSet {
 	dss := &dataStoreSet{
 		basePath: basePath,
 		dbs:      map[int]*dataStore{},
